@@ -366,3 +366,38 @@ package wire
 //@   props C07
 //@   ensures iff(result, len(f.AckRanges) > 1)
 //@   modifies nothing
+
+// ---------------- long header (C10) ----------------
+//@ spec hdrlen(dl int, sl int, pnl int, initial bool, tl int) int = 9 + dl + sl + pnl + ite(initial, quicvarint.vlen(uint64(tl)) + tl, 0)
+
+//@ func (h *ExtendedHeader) GetLength
+//@   props C10
+//@   requires len(h.Token) <= 1099511627776
+//@   ensures [value] result == hdrlen(int(h.DestConnectionID.l), int(h.SrcConnectionID.l), int(h.PacketNumberLen), h.Type == protocol.PacketTypeInitial, len(h.Token))
+//@   modifies nothing
+
+//@ extern (r encoding/binary.bigEndian) PutUint32
+//@   requires len(b) >= 4
+//@   modifies b[*]
+//@ extern (r encoding/binary.bigEndian) PutUint16
+//@   requires len(b) >= 2
+//@   modifies b[*]
+
+//@ func appendPacketNumber
+//@   props C10
+//@   ensures [invalid-iff] iff(result1 != nil, pnLen != 1 && pnLen != 2 && pnLen != 3 && pnLen != 4)
+//@   ensures [len] implies(result1 == nil, len(result0) == len(b) + pnLen)
+//@   ensures [array] implies(result1 == nil, samearray(result0, b) || isfresh(result0))
+//@   ensures [in-place] implies(result1 == nil && len(b) + pnLen <= cap(b), samearray(result0, b) && cap(result0) == cap(b))
+//@   modifies b[*]
+
+//@ func (h *ExtendedHeader) Append
+//@   props C10
+//@   requires len(h.Token) <= 1099511627776 && h.Type != protocol.PacketTypeRetry
+//@   panics when h.DestConnectionID.l <= 20 && h.SrcConnectionID.l <= 20 && (h.Length < 0 || h.Length > 16383)
+//@   ensures [conn-id-length-checked] implies(h.DestConnectionID.l > 20 || h.SrcConnectionID.l > 20, result1 != nil)
+//@   ensures [len] implies(result1 == nil, len(result0) == len(b) + hdrlen(int(h.DestConnectionID.l), int(h.SrcConnectionID.l), int(h.PacketNumberLen), h.Type == protocol.PacketTypeInitial, len(h.Token)))
+//@   ensures [pn-len-valid] implies(result1 == nil, 1 <= h.PacketNumberLen && h.PacketNumberLen <= 4)
+//@   ensures [array] implies(result1 == nil, samearray(result0, b) || isfresh(result0))
+//@   ensures [in-place] implies(result1 == nil && len(result0) <= cap(b), samearray(result0, b) && cap(result0) == cap(b))
+//@   modifies b[*]
